@@ -73,7 +73,7 @@ def crash_safe(ctx) -> None:
         final = sigma.get(("P", None), ABSENT)
         if violated is not None:
             e, step, st = violated
-            ctx.ob("SAVE-window", f"save_simulation|{util.text(e.node, 70)}", e.loc(), False,
+            ctx.ob("SAVE-window", f"save_simulation|{util.akey(e.node, e.func, 70)}", e.loc(), False,
                    f"after `{step}` the advertised autosave file is {st}: a crash at this point leaves no loadable "
                    f"snapshot under the advertised name (trace: {' | '.join(trace)})", entry=f.qualname, path=conds)
         else:
